@@ -200,3 +200,35 @@ def snapshot(obj):
 
 def snapshots(xs):
     return [snapshot(x) for x in xs]
+
+
+def is_int(v):
+    return isinstance(v, int) and not isinstance(v, bool)
+
+
+def is_true(v):
+    return v is True
+
+
+def is_bytes(v):
+    return isinstance(v, bytes)
+
+
+def is_str(v):
+    return isinstance(v, str)
+
+
+def as_int(v):
+    return v
+
+
+def as_bytes(v):
+    return v
+
+
+def as_str(v):
+    return v
+
+
+def hex_of(b):
+    return bytes(b).hex()
